@@ -216,9 +216,27 @@ CHECKS.update({
         ref="4/C09"),
 })
 
+CHECKS.update({
+    "C20": dict(
+        technique="static analysis: who-may-consume / who-may-write rules for the lexer's position counters, belief agreement over the line-terminator "
+                  "set (edges of character comparisons reaching the line increment), value-origin rules (def-chains over MIR) for token spans, "
+                  "(line, column) pairs, source-map entries, the comparison gating an entry and the lookup index, sibling agreement of the two frame "
+                  "kinds of the stack-trace builder; positive-control fixture",
+        text="Decides eight structural necessary conditions of position reporting, not the position values: source characters are consumed only by "
+             "functions that count them; the line counter changes only by +1 with column = 1 on exactly the edges for LF, U+2028, U+2029 (CR is not a "
+             "line end, so CRLF counts once) and the column by +1 or from a saved position; every token span takes line and column from the "
+             "start-of-token position, recorded after trivia and before the first character is consumed, never swapped; every (line, column) pair "
+             "handed to an error or stack frame takes line from .line and column from .column of one span; instructions are appended only together with "
+             "a source-map entry whose offset is the index of that instruction and whose span is the builder's current span, nothing inserts or removes "
+             "instructions in the middle, and an entry is suppressed only on span equality (never by order: emission order is not source order); the "
+             "map lookup returns the entry at or before the offset; the trace builder lists the current frame first, walks the trampoline stack from "
+             "its top and looks both frame kinds up at ip - 1 of their own chunk. All discharge on the current tree. That a reported position lies "
+             "inside the offending token for every layout is a matter of run-time values and not decided.",
+        ref="4/C20"),
+})
+
 NOT_APPLICABLE = {
     "C04": "value equivalence with the TypeScript emit; no structural mechanism exists (DESIGN.md 4/C04)",
-    "C20": "source positions are run-time values of the source map; no structural rule decides 'inside the offending token'",
 }
 PENDING = "static rules for this property are designed (DESIGN.md section 4) but not yet built; not claimed until they are"
 
